@@ -768,7 +768,7 @@ class PoissonSeamEngine:
     def submodes(self, tier):
         if tier == "quick":
             return [("molecular", 16), ("atomic", 170)]  # (the long molecular runs are started first)
-        return [("molecular", 1500), ("atomic", 12000)]
+        return [("molecular", 600), ("atomic", 12000)]
 
     def determinism_sample(self, tier):
         return 16 if tier == "quick" else 128
